@@ -43,6 +43,11 @@ def run(ctx):
     # catch-up admission (an obsolete snapshot below the watermark would reintroduce collected keys)
     from . import c18
     c18.r18_2(ctx, rep, c18.build_model(fx, roles))
+    # the store step itself: set_versioned_value overwrites iff strictly newer (a dropped newer tombstone leaves the copy
+    # inexact below its frontier, seed R2-C02-1)
+    from . import c04
+    c04.r04_4(ctx, rep, roles)
+    ctx.report.rules[-1].id = "R02.6(R04.4)"
 
 
 def loop_body(row, fid):
